@@ -195,6 +195,37 @@ func itoa(i int) string {
 	return string(b[n:])
 }
 
+// numericReferenceDeviates: does some text token of the input hold a numeric character reference
+// that the reference library decodes differently from the standard (class predicate of D67)?
+func numericReferenceDeviates(toks []tok) bool {
+	for _, t := range toks {
+		if t.Type != html.TextToken {
+			continue
+		}
+		raw := t.Raw
+		for i := 0; i+1 < len(raw); i++ {
+			if raw[i] != '&' || raw[i+1] != '#' {
+				continue
+			}
+			j := i + 2
+			for j < len(raw) && j < i+40 && (raw[j] == 'x' || raw[j] == 'X' || raw[j] >= '0' && raw[j] <= '9' || raw[j] >= 'a' && raw[j] <= 'f' || raw[j] >= 'A' && raw[j] <= 'F') {
+				j++
+			}
+			if j < len(raw) && raw[j] == ';' {
+				j++
+			}
+			end := j
+			if end < len(raw) {
+				end++ // one character of context: whether a digit run ends matters to both decoders
+			}
+			if stdDecodeText(raw[i:end]) != html.UnescapeString(raw[i:end]) {
+				return true
+			}
+		}
+	}
+	return false
+}
+
 func checkC06(c *Case, r *Rec) error {
 	m := BuildModel(c.Spec)
 	if allowsRawText(m) {
@@ -250,6 +281,18 @@ func checkC06(c *Case, r *Rec) error {
 	if fullClass {
 		if ok, why := exactWalk(fin, fout, m.spaces); !ok {
 			return violation(out, "C06(exact, spaces=%v): %s", m.spaces, why)
+		}
+	}
+	if fullClass && !m.spaces {
+		// the same equation read with the standard's decoding of numeric character references
+		// (charref.go) instead of the reference library's: where the two decoders agree this adds
+		// nothing, where they differ the text a browser reads has changed
+		if si, so := stdTextOf(inToks), stdTextOf(outToks); si != so {
+			if c.Kind != "strict-replay" && numericReferenceDeviates(inToks) && knownClassEnabled("C06", "tokenizer_decodes_numeric_reference_differently_from_standard") {
+				r.Excluded("tokenizer_decodes_numeric_reference_differently_from_standard")
+			} else {
+				return violation(out, "C06(standard decoding): the text a standard tokenizer reads from the input is %s, from the output %s", q(trunc(si, 120)), q(trunc(so, 120)))
+			}
 		}
 	}
 	// text is always emitted escaped: the raw output contains '<' only as the first byte of a tag or
